@@ -30,6 +30,7 @@ type Clause struct {
 
 type ModItem struct {
 	Expr   string // path expression
+	AllKind bool  // allmaps(path): the contents of every map of path's type
 	All2   bool   // path[*][*]: the contents of every map stored in the map
 	All    bool   // path[*]
 	GoName string
@@ -53,6 +54,7 @@ type FuncContract struct {
 	Anchors  []*Anchor
 	Modifies []*ModItem
 	Attrs    map[string]string // trusted, inline, pure, atomic, constructor, holds, ...
+	LockOf   *Clause           // expression naming the object whose lock makes this function atomic
 	Ghost    []*GhostStmt
 	Line     int
 	File     string
@@ -328,6 +330,11 @@ func parseContractFile(pkg, path string) (*ContractFile, error) {
 			default:
 				return nil, errf("bad loop clause kind %q", f[1])
 			}
+		case "lockof":
+			if cur == nil {
+				return nil, errf("lockof outside func")
+			}
+			cur.LockOf = &Clause{Kind: "lockof", Expr: rest, Line: l.n}
 		case "at":
 			// at call <callee>#k assert [tags] #label expr
 			if cur == nil {
@@ -423,6 +430,9 @@ func parseModItems(s string, loop int) []*ModItem {
 		} else if strings.HasSuffix(it, "[*]") {
 			m.All = true
 			m.Expr = strings.TrimSuffix(it, "[*]")
+		} else if strings.HasPrefix(it, "allmaps(") {
+			m.All, m.AllKind = true, true
+			m.Expr = strings.TrimSuffix(strings.TrimPrefix(it, "allmaps("), ")")
 		} else if strings.HasPrefix(it, "gcChan(") {
 			m.All = true
 			m.Expr = strings.TrimSuffix(strings.TrimPrefix(it, "gcChan("), ")")
